@@ -1,10 +1,10 @@
 SPECIFICATION Spec
 CONSTANTS
-  Defs <- D1
-  Vectors <- V3
+  Defs <- DF
+  Vectors <- VF
   MaxOps = 3
-  BranchInputsMayBeLazy = TRUE
-  KeyOnContentOnly = FALSE
+  BranchInputsMayBeLazy = FALSE
+  KeyOnContentOnly = TRUE
 INVARIANT Transparent
 INVARIANT NoLeak
 
